@@ -1485,6 +1485,21 @@ class Proxy:
             return [Proxy(c, rt) if c is not None else None for c in val]
         if name == "base":
             return self
+        return self._reglob_value(val, 0)
+
+    def _reglob_value(self, val, depth):
+        """functions / bound methods of the packages under verification that are stored as DATA (a table of rate functions, a
+        callback kept in an attribute) are re-globalised like methods are, also inside dicts / lists / tuples"""
+        real, rt = self._real, self._rt
+        if inspect.isfunction(val) and (unwrap(val).__module__ or "").split(".")[0] in rt.PKGS:
+            return rt.reglob(val)
+        if inspect.ismethod(val) and inspect.isfunction(val.__func__) and (unwrap(val.__func__).__module__ or "").split(".")[0] in rt.PKGS:
+            return types.MethodType(rt.reglob(val.__func__), self if val.__self__ is real else val.__self__)
+        if depth < 2:
+            if type(val) is dict and any(callable(v) for v in val.values()):
+                return {k: self._reglob_value(v, depth + 1) for k, v in val.items()}
+            if type(val) in (list, tuple) and any(callable(v) for v in val):
+                return type(val)(self._reglob_value(v, depth + 1) for v in val)
         return val
 
     def __setattr__(self, name, v):
